@@ -138,6 +138,10 @@ let print_event (e : event) =
 (* monitors: the specifications' executable predicates, evaluated on the
    IMPLEMENTATION's answer (given as impl=<hex>|N on the F line) *)
 let monitors : (string * (config -> n list -> n list option -> bool)) list = [
+  ("C02", ok_C02);
+  ("C03", ok_C03);
+  ("C04", (fun _ _ r -> ok_C04 r));
+  ("C05", ok_C05);
   ("C06", ok_C06);
 ]
 
@@ -146,22 +150,24 @@ let () =
   let wanted = if Array.length Sys.argv > 2 then String.split_on_char ',' Sys.argv.(2) else [] in
   let cfg = ref default_cfg in
   let tbl : table ref = ref [] in
+  let rst : ref_state ref = ref [] in
   (try
      while true do
        let line = input_line stdin in
        (match split_ws line with
         | "CFG" :: rest -> cfg := parse_cfg rest; print_string "OK\n"
-        | "RESET" :: _ -> tbl := []; print_string "OK\n"
+        | "RESET" :: _ -> tbl := []; rst := []; print_string "OK\n"
         | "F" :: rest ->
           let (h, opts) = match rest with
             | x :: o when not (String.contains x '=') -> (x, o)
             | o -> ("", o) in
-          let date = ref [] and ft = ref N0 and impl = ref None in
+          let date = ref [] and ft = ref N0 and impl = ref None and tsize = ref (-1) in
           List.iter (fun s -> let (k, v) = kv s in
                       match k with
                       | "date" -> date := bytes_of_hex v
                       | "ft" -> ft := n_of_dec v
                       | "impl" -> impl := Some (if v = "N" then None else Some (bytes_of_hex v))
+                      | "tsize" -> tsize := int_of_string v
                       | _ -> ()) opts;
           let clk = { clk_date = !date; clk_filetime = !ft } in
           let frame = bytes_of_hex h in
@@ -169,8 +175,17 @@ let () =
            | Some ir ->
              List.iter (fun (name, m) ->
                if List.mem name wanted then
-                 Printf.printf "V %s %d\n" name (if m !cfg frame ir then 1 else 0)) monitors
+                 Printf.printf "V %s %d\n" name (if m !cfg frame ir then 1 else 0)) monitors;
+             if List.mem "C07" wanted then
+               Printf.printf "V C07 %d\n" (if ok_C07 !cfg !rst frame ir then 1 else 0)
            | None -> ());
+          (* reference connection state (C07/C08/C09) advances on every frame *)
+          rst := ref_step !cfg !rst frame;
+          if !tsize >= 0 && List.mem "C09" wanted then begin
+            let rec nat_to_int = function O -> 0 | S k -> 1 + nat_to_int k in
+            let exp = nat_to_int (length (dedup (ref_keys !cfg !rst))) in
+            Printf.printf "V C09 %d\n" (if exp = !tsize then 1 else 0)
+          end;
           (match reply env !cfg clk !tbl frame with
            | Ok ((tb', out), evs) ->
              tbl := tb';
